@@ -267,7 +267,72 @@ func runStepCLI(in Input, k *simk.Kernel, st StepIn, salt int) (obs StepObs) {
 		}
 	}
 	obs.CLI = argv
+	if st.Cmd.Kind == "list" && obs.Res == "ok" && !st.Env.Verbose {
+		rows, ok := parseListTable(out.String())
+		if !ok { // not the documented table: must not pass for "nothing observed"
+			rows = []LayerObs{{Name: "?unparsable list output"}}
+		}
+		obs.Layers, obs.HasL = rows, true
+	}
 	return
+}
+
+// StateNames: manage's layerstateDescriptions, index = Layerinfo.State
+var StateNames = []string{"defined but empty", "error", "incomplete setup", "not yet populated", "build directories set up",
+	"mountable", "partially mounted", "mounted and ready", "mounted; cannot be unmounted"}
+
+// parseListTable reads the table `layercake list` prints (without -v one row per layer): name,
+// "(base level)" or "<- parent", an optional usage word (busy / chroot), the state description.
+// In a LayerObs of such a row MountBusy stands for the word "busy" (LC.lobs_listed).
+func parseListTable(out string) ([]LayerObs, bool) {
+	rows := []LayerObs{}
+	if strings.Contains(out, "No layers found") {
+		return rows, true
+	}
+	lines := strings.Split(out, "\n")
+	seenHeader := false
+	for _, line := range lines {
+		f := strings.Fields(line)
+		if len(f) == 0 || strings.HasPrefix(line, "Caution:") {
+			continue
+		}
+		if !seenHeader {
+			if f[0] == "Layer" {
+				seenHeader = true
+			}
+			continue
+		}
+		if strings.HasPrefix(f[0], "=") {
+			continue
+		}
+		var lo LayerObs
+		var rest []string
+		switch {
+		case len(f) >= 3 && f[1] == "(base" && f[2] == "level)":
+			lo.Name, rest = f[0], f[3:]
+		case len(f) >= 3 && f[1] == "<-":
+			lo.Name, lo.Base, rest = f[0], f[2], f[3:]
+		default:
+			return nil, false
+		}
+		if len(rest) > 0 && rest[0] == "busy" {
+			lo.MountBusy, rest = true, rest[1:]
+		} else if len(rest) > 0 && rest[0] == "chroot" {
+			lo.Chroot, rest = true, rest[1:]
+		}
+		desc := strings.Join(rest, " ")
+		lo.State = -1
+		for i, sn := range StateNames {
+			if desc == sn {
+				lo.State = i
+			}
+		}
+		if lo.State < 0 {
+			return nil, false
+		}
+		rows = append(rows, lo)
+	}
+	return rows, seenHeader
 }
 
 // KernelHelperMain is the program the binary's hook calls: one kernel interaction on the state file.
